@@ -34,7 +34,7 @@ OBLIGATIONS = [
     "C05_settings_explicit_count", "C05_settings_default_fraction",
     # the schedule ON THE RUN: control flow regenerated from the source (GenC11.v) composed with the regenerated rules (GenC05.v)
     "C05_src_shape", "C05_src_run_events", "C05_src_run_log", "C05_src_run_schedule", "C05_src_run_schedule_example",
-    "C05_src_log_observed",
+    "C05_src_log_observed", "C05_src_run_unrolled",
 ]
 
 PERSO_ALGOS = ("mean_posterior", "mode_posterior")     # share AlgorithmWithSamplersMixin with the fit algorithm
